@@ -259,6 +259,9 @@ def run(ctx):
     from . import C11
     C11.r6_every_write_under_buffer_lock(ctx)   # the records of one packet (payload pieces and their Waste frames) are not interleaved with another writer's
     C11.r2_contiguity(ctx)
+    C11.r7_cancellation(ctx)        # a shaped packet is written to the end or the session dies: never abandoned half-way with the session alive (what follows would land inside a Waste frame)
+    from . import C09 as _C09w
+    _C09w.r9_write_errors_funnel(ctx)
     C11.r5_writer_users(ctx)        # write_with_padding is the only code that writes to the transport: nothing bypasses the shaping and what is queued ahead of it
     C11.r1_flush_atomicity(ctx)     # whatever the cut-off decides about padding, the frames waiting in the first-packet buffer still go out ahead of the frame that follows them
     r6_flushed_before_success(ctx)
